@@ -813,3 +813,46 @@ def rule_snapshot_not_consulted(ctx):
         ctx.holds("SNAPSHOT", "SNAPSHOT:%s.%s" % (rec, fld), "-", "stored at %d site(s), never read" % stores, nontrivial=False)
     ctx.floor("SNAPSHOT", 1, n, "(stores of the snapshot fields)")
     return n
+
+
+# ---------------------------------------------------------------------------------------------------------------------
+def rule_written_local_initialised(ctx):
+    """INITWRITE (C01): bytes handed to the storage layer (`HP_write(file, &v, n)`, `fwrite(&v, ..)`) from a local variable are
+    the content of the file; the local must have been given a value.  HPgetdiskblock and HIextend_file reserve space by writing
+    one byte at the new end — that byte is what a never-written gap reads back as, and the format promises zeros."""
+    prog = ctx.prog
+    n = 0
+    for f in prog.lib_funcs():
+        if not f.rel.startswith("hdf/src/"):
+            continue
+        decl_init = {}
+        assigned = set()
+        for _b, _i, _s, x in f.nodes(True):
+            if x[0] == "decl":
+                for d in x[1]:
+                    decl_init[d[0]] = d[2] is not None
+            elif x[0] == "asg" and base_var(x[2]):
+                assigned.add(base_var(x[2]))
+            elif x[0] == "incdec" and base_var(x[3]):
+                assigned.add(base_var(x[3]))
+        for _b, _i, _s, c in f.calls():
+            di = {"HP_write": 1, "fwrite": 0}.get(c[1])
+            if di is None or len(c[3]) <= di:
+                continue
+            a = strip(c[3][di])
+            if kind(a) != "addr" or kind(strip(a[1])) != "var" or strip(a[1])[2] != "l":
+                continue
+            v = strip(a[1])[1]
+            if v not in decl_init:
+                continue
+            n += 1
+            key = "INITWRITE:%s:%s" % (f.name, v)
+            # filled through its address by another call before the write (e.g. an encoder)?
+            filled = any(k[1] not in ("HP_write", "fwrite") and any(kind(strip(z)) == "addr" and base_var(z) == v for z in k[3]) and k[5] <= c[5] for _b2, _i2, _s2, k in f.calls())
+            if decl_init[v] or v in assigned or filled:
+                ctx.holds("INITWRITE", key, f.where(c[5]), "`%s` has a value when it is written" % v, nontrivial=True)
+            else:
+                ctx.violated("INITWRITE", key, f.where(c[5]), "`%s` is written to the file (%s) but never given a value: the file receives whatever the stack held — a reserved, "
+                             "never-written byte must read as zero" % (v, render(c)[:50]))
+    ctx.floor("INITWRITE", 2, n, "(locals written to the file through their address)")
+    return n
